@@ -65,7 +65,27 @@ SPEC = [
      'consts': ['PATH_SEPARATOR_CHILD', 'PATH_SEPARATOR_ATTRIB', 'PATH_SEPARATOR_DESCEND',
                 'STATE_START_PARSING', 'STATE_START_SUBSET', 'STATE_START_SUBSET_SLICE_0',
                 'STATE_START_SUBSET_SLICE_X', 'STATE_STOP_SUBSET_SLICE', 'STATE_START_ID',
-                'STATE_START_SLICE_0', 'STATE_START_SLICE_X', 'STATE_STOP_SLICE']},
+                'STATE_START_SLICE_0', 'STATE_START_SLICE_X', 'STATE_STOP_SLICE'],
+     # ---- C15: the whole NodePathParser (stateful classes: methods read AND assign self.<attr>) ----
+     'namedtuples': {'PathComponent': {'fields': {'separator': 'opt[str]', 'id': 'opt[str]', 'slice': 'opt[intorslice]'}}},
+     'classes': {
+         'NodePath': {'stateful': True,
+                      'attrs': {'path_string': 'str', 'subset_slice': 'opt[intorslice]', 'components': 'list[PathComponent]'},
+                      'methods': {'__init__': {'params': {'path_string': 'str'}},
+                                  'add_component': {'params': {'component': 'PathComponent'}}}},
+         'NodePathParser': {'stateful': True,
+                            'attrs': {'bare_id_matches_all': 'bool', 'pos': 'int', 'current_state': 'opt[str]',
+                                      'current_token': 'opt[str]', 'current_id': 'opt[str]',
+                                      'current_separator': 'opt[str]', 'current_slice_elements': 'list[opt[int]]',
+                                      'node_path': 'NodePath'},
+                            'methods': {'reset': {}, 'convert_slice_element': {}, 'convert_id': {},
+                                        'create_slice_object': {'locals': {'slc_obj': 'opt[intorslice]'}},
+                                        'add_new_path_component': {'locals': {'slc_obj': 'opt[intorslice]'}},
+                                        'handle_left_bracket': {},
+                                        'handle_colon_and_right_bracket': {'params': {'c': 'str'}},
+                                        'handle_separator': {'params': {'c': 'str'}},
+                                        'parse': {'params': {'path_expr': 'str'}}}},
+     }},
     {'module': 'mdquery', 'file': 'pybufrkit/mdquery.py',
      'consts': ['METADATA_QUERY_INDICATOR_CHAR']},
     {'module': 'coder', 'file': 'pybufrkit/coder.py',
@@ -104,6 +124,8 @@ def lean_ident(name):
 # =============================================================================================
 # types
 INT, NAT, BOOL, STR, BYTES, OBJ = ('int',), ('nat',), ('bool',), ('str',), ('bytes',), ('obj',)
+INTORSLICE, UNIT = ('intorslice',), ('unit',)
+NAMED_KIND = {}     # name -> 'namedtuple' | 'class' (the named types of the module being translated)
 
 
 class TV(object):
@@ -133,9 +155,11 @@ def resolved(t):
 
 def parse_type(s):
     s = s.strip()
-    if s in ('int', 'nat', 'bool', 'str', 'bytes', 'obj'):
+    if s in ('int', 'nat', 'bool', 'str', 'bytes', 'obj', 'intorslice', 'unit'):
         return (s,)
-    m = re.match(r'(list|dict|tuple|tree)\[(.*)\]$', s)
+    if re.match(r'[A-Z]\w*$', s):
+        return ('named', s)      # a namedtuple or a stateful class declared in the same SPEC entry
+    m = re.match(r'(list|dict|tuple|tree|opt)\[(.*)\]$', s)
     if not m:
         raise ValueError('bad type %r' % s)
     parts, depth, cur = [], 0, ''
@@ -168,6 +192,14 @@ def lean_type(t, top=True):
         r = 'List UInt8'
     elif k == 'obj':
         return 'Py.Obj'
+    elif k == 'intorslice':
+        return 'Py.IntOrSlice'
+    elif k == 'unit':
+        return 'Unit'
+    elif k == 'named':
+        return t[1] + '.Self' if NAMED_KIND.get(t[1]) == 'class' else t[1]
+    elif k == 'opt':
+        r = 'Option ' + lean_type(t[1], False)
     elif k == 'list':
         r = 'List ' + lean_type(t[1], False)
     elif k == 'tree':
@@ -194,6 +226,14 @@ def default_value(t):
         return '{}'
     if k == 'tree':
         return '(.list [])'
+    if k == 'opt':
+        return 'none'
+    if k == 'intorslice':
+        return '(Py.IntOrSlice.int 0)'
+    if k == 'unit':
+        return '()'
+    if k == 'named':
+        return 'default'
     if k == 'tuple':
         return '(' + ', '.join(default_value(x) for x in t[1:]) + ')'
     raise ValueError(t)
@@ -468,7 +508,9 @@ class ExprCompiler(object):
         self.bad(e, 'unary operator %s' % type(e.op).__name__)
 
     def e_BinOp(self, e):
-        a, b = self.expr(e.left), self.expr(e.right)
+        return self.binop(e, self.expr(e.left), self.expr(e.right))
+
+    def binop(self, e, a, b):
         ka, kb = self.kind(a, e.left), self.kind(b, e.right)
         op = type(e.op).__name__
         num = ('int', 'nat')
@@ -586,7 +628,9 @@ class ExprCompiler(object):
     def e_Subscript(self, e):
         if isinstance(e.slice, ast.Slice):
             self.bad(e, 'slicing is not in the table')
-        a, i = self.expr(e.value), self.expr(e.slice)
+        return self.subscript(e, self.expr(e.value), self.expr(e.slice))
+
+    def subscript(self, e, a, i):
         ka = self.kind(a, e.value)
         if ka == 'dict':
             ta = prune(a.ty)
@@ -837,10 +881,11 @@ class FuncCompiler(ExprCompiler):
             if isinstance(s, ast.Assign):
                 self.check_reads(s.value, assigned)
                 for t in s.targets:
-                    if isinstance(t, ast.Name):
-                        assigned.add(t.id)
-                    else:
-                        self.check_reads(t, assigned)
+                    for t1 in (t.elts if isinstance(t, ast.Tuple) else [t]):
+                        if isinstance(t1, ast.Name):
+                            assigned.add(t1.id)
+                        else:
+                            self.check_reads(t1, assigned)
             elif isinstance(s, ast.AugAssign):
                 self.check_reads(s.value, assigned)
                 if isinstance(s.target, ast.Name):
@@ -869,8 +914,16 @@ class FuncCompiler(ExprCompiler):
             elif isinstance(s, ast.Pass):
                 pass
             else:
-                self.bad(s, 'statement construct %s is not in the table' % type(s).__name__)
+                assigned = self.definite_other(s, assigned)
         return assigned
+
+    def definite_other(self, s, assigned):
+        self.bad(s, 'statement construct %s is not in the table' % type(s).__name__)
+
+    allow_attr_store = False
+
+    def initial_local_type(self, name):
+        return TV()
 
     # -- statements ---------------------------------------------------------------------------
     # a compiled statement / block is (text, raises): a Lean term of type Locals (raises = False) or
@@ -1245,9 +1298,9 @@ class FuncCompiler(ExprCompiler):
         if 'self' in local_names:
             self.bad(node, 'assignment to self')
         for n in ast.walk(node):
-            if isinstance(n, ast.Attribute) and isinstance(n.ctx, ast.Store):
+            if isinstance(n, ast.Attribute) and isinstance(n.ctx, ast.Store) and not self.allow_attr_store:
                 self.bad(n, 'attribute assignment')
-        self.local_types = {n: TV() for n in local_names}
+        self.local_types = {n: self.initial_local_type(n) for n in local_names}
         # pass 1: type inference (Nat and Int are not distinguished)
         self.nat_locals = set()
         self.definite(self.body_stmts(), set(self.params))
@@ -1328,6 +1381,788 @@ class FuncCompiler(ExprCompiler):
 
 
 # =============================================================================================
+# ---- stateful classes (block added for C15: the whole `dataquery.NodePathParser`) ----------------
+# A class declared `'stateful': True` in SPEC: its methods read AND assign `self.<attr>` and call each other.
+# Every method becomes   Cls.m (self : Cls.Self) (params…) : Except Py.Exc (Cls.Self × R)   (R = Unit for a
+# method that returns nothing); `__init__` becomes  Cls.__init__ (params…) : Cls.Self.  Inside a method the
+# record `v : Locals` has a field `self : Cls.Self` besides the parameters and local variables.
+# Everything handled here is listed in notes/Tie.md ("Stateful classes").
+BUILTIN_EXC = {'ValueError': 'valueError', 'IndexError': 'indexError', 'KeyError': 'keyError',
+               'ZeroDivisionError': 'zeroDivisionError', 'TypeError': 'typeError'}
+
+
+def self_path(e):
+    """['a'] for `self.a`, ['a', 'b'] for `self.a.b`; None for anything else"""
+    path = []
+    while isinstance(e, ast.Attribute):
+        path.append(e.attr)
+        e = e.value
+    if isinstance(e, ast.Name) and e.id == 'self' and path:
+        return list(reversed(path))
+    return None
+
+
+def module_binds(mod, name):
+    """is `name` bound at module level by an assignment, def or class (so that it is not the builtin)?"""
+    return name in mod.assigns or name in mod.funcs or name in mod.classes or name in mod.globals_declared
+
+
+def module_imports(mod, module, name=None):
+    """`import module` (name None) or `from module import name` at module level, and the bound name not re-bound"""
+    found = False
+    for node in mod.tree.body:
+        if name is None and isinstance(node, ast.Import):
+            found = found or any(a.name == module and a.asname is None for a in node.names)
+        if name is not None and isinstance(node, ast.ImportFrom) and node.module == module and node.level == 0:
+            found = found or any(a.name == name and a.asname is None for a in node.names)
+    bound = module if name is None else name
+    stores = [n for n in ast.walk(mod.tree) if isinstance(n, ast.Name) and n.id == bound and isinstance(n.ctx, (ast.Store, ast.Del))]
+    return found and not stores and not module_binds(mod, bound)
+
+
+class ClassInfo(object):
+    def __init__(self, name, node, attrs, spec):
+        self.name, self.node, self.attrs, self.spec = name, node, attrs, spec
+        self.methods = {}     # method name -> ast node (the methods named in SPEC)
+        self.sigs = {}        # method name -> (params, result type), filled when the method has been translated
+        self.writes = {}      # method name -> attributes it may assign / mutate, calls of other methods included
+        self.calls = {}
+
+
+def direct_writes_and_calls(node):
+    writes, calls = set(), set()
+    for n in ast.walk(node):
+        if isinstance(n, ast.Attribute) and isinstance(n.ctx, (ast.Store, ast.Del)):
+            p = self_path(n)
+            if p:
+                writes.add(p[0])
+        if isinstance(n, ast.Call) and isinstance(n.func, ast.Attribute):
+            p = self_path(n.func)
+            if p and len(p) == 1:
+                calls.add(p[0])          # self.m(...)
+            elif p:
+                writes.add(p[0])         # self.a.append(...), self.a.m(...): the object held in `a` changes
+    return writes, calls
+
+
+class MethodCompiler(FuncCompiler):
+    allow_attr_store = True
+
+    def __init__(self, mod, gen, node, lean_name, params, cls, classes, declared_locals, returns=None):
+        FuncCompiler.__init__(self, mod, gen, node, lean_name, params, self_attrs=cls.attrs, returns=returns)
+        self.cls = cls
+        self.classes = classes            # name -> ClassInfo of the stateful classes translated so far
+        self.declared_locals = declared_locals
+
+    def initial_local_type(self, name):
+        return self.declared_locals.get(name) or TV()
+
+    # -- types ------------------------------------------------------------------------------
+    @staticmethod
+    def is_opt(ex):
+        t = prune(ex.ty)
+        return not isinstance(t, TV) and t[0] == 'opt'
+
+    def unopt(self, ex):
+        """a `T or None` value used where a `T` is required: `None` there is a TypeError"""
+        if self.is_opt(ex):
+            return self.lift([ex], lambda c: '(Py.unwrap %s)' % c[0], prune(ex.ty)[1], result_raises=True)
+        return ex
+
+    def coerce(self, ex, ty, node):
+        ty, et = prune(ty), prune(ex.ty)
+        if not isinstance(ty, TV) and ty[0] == 'opt':
+            inner = prune(ty[1])
+            if isinstance(et, TV):
+                self.unify(et, ty, node)
+                return ex
+            if et[0] == 'opt':
+                ei = prune(et[1])
+                if inner == INTORSLICE and ei in (INT, NAT):
+                    return self.lift([ex], lambda c: '(Option.map Py.IntOrSlice.int %s)' % c[0], ty)
+                self.unify(et, ty, node)
+                return ex
+            x = self.coerce(ex, inner, node)
+            return self.lift([x], lambda c: '(some %s)' % c[0], ty)
+        if ty == INTORSLICE and not isinstance(et, TV) and et in (INT, NAT):
+            x = self.to_int(ex)
+            return self.lift([x], lambda c: '(Py.IntOrSlice.int %s)' % c[0], INTORSLICE)
+        return FuncCompiler.coerce(self, ex, ty, node)
+
+    def attr_type(self, path, node):
+        cls, t = self.cls, None
+        for i, a in enumerate(path):
+            if cls is None or a not in cls.attrs:
+                self.bad(node, 'attribute self.%s has no declared type in the translator specification' % '.'.join(path[:i + 1]))
+            t = cls.attrs[a]
+            tp = prune(t)
+            cls = self.classes.get(tp[1]) if (not isinstance(tp, TV) and tp[0] == 'named') else None
+        return t
+
+    # -- expressions --------------------------------------------------------------------------
+    def e_Constant(self, e):
+        if e.value is None:
+            return Ex('none', ('opt', TV()))
+        return FuncCompiler.e_Constant(self, e)
+
+    def e_Attribute(self, e):
+        p = self_path(e)
+        if p:
+            return Ex('v.self.' + '.'.join(lean_ident(a) for a in p), self.attr_type(p, e))
+        if (isinstance(e.value, ast.Name) and e.value.id == 'string' and e.attr == 'whitespace'
+                and 'string' not in self.names and module_imports(self.mod, 'string')):
+            return Ex(lean_str(string.whitespace), STR)   # the value in the interpreter that runs the check
+        self.bad(e, 'attribute access is not in the table (only self.<attr>, self.<attr>.<attr>, string.whitespace)')
+
+    def binop(self, e, a, b):
+        return FuncCompiler.binop(self, e, self.unopt(a), self.unopt(b))
+
+    def subscript(self, e, a, i):
+        return FuncCompiler.subscript(self, e, self.unopt(a), self.unopt(i))
+
+    def e_IfExp(self, e):
+        c = self.as_bool(self.expr(e.test), e.test)
+        a, b = self.expr(e.body), self.expr(e.orelse)
+        if self.is_opt(a) and not self.is_opt(b):
+            b = self.coerce(b, a.ty, e)
+        elif self.is_opt(b) and not self.is_opt(a):
+            a = self.coerce(a, b.ty, e)
+        if {prune(a.ty), prune(b.ty)} == {INT, NAT}:
+            a, b = self.to_int(a), self.to_int(b)
+        self.unify(a.ty, b.ty, e)
+        if a.raises or b.raises:
+            ac = a.code if a.raises else '(pure %s)' % a.code
+            bc = b.code if b.raises else '(pure %s)' % b.code
+            return self.lift([c], lambda k: '(if %s then %s else %s)' % (k[0], ac, bc), a.ty, result_raises=True)
+        return self.lift([c], lambda k: '(if %s then %s else %s)' % (k[0], a.code, b.code), a.ty)
+
+    def e_Compare(self, e):
+        if len(e.ops) != 1:
+            self.bad(e, 'chained comparison')
+        op = type(e.ops[0]).__name__
+        right = e.comparators[0]
+        if op in ('Eq', 'NotEq'):
+            a, b = self.expr(e.left), self.expr(right)
+            if self.is_opt(a) or self.is_opt(b):
+                # `x == y` where one side may be None: equal iff both are the same value (None == None only)
+                if not self.is_opt(a):
+                    a = self.coerce(a, b.ty, e)
+                elif not self.is_opt(b):
+                    b = self.coerce(b, a.ty, e)
+                self.unify(a.ty, b.ty, e)
+                fmt = '(decide (%s = %s))' if op == 'Eq' else '(!decide (%s = %s))'
+                return self.lift([a, b], lambda c: fmt % (c[0], c[1]), BOOL)
+        if op in ('In', 'NotIn'):
+            neg = '!' if op == 'NotIn' else ''
+            if isinstance(right, (ast.Tuple, ast.List)) and right.elts:
+                # membership in a tuple / list display: `==` against each element in turn
+                a = self.expr(e.left)
+                alts = [self.expr(x) for x in right.elts]
+                for i, x in enumerate(alts):
+                    if self.is_opt(a) and not self.is_opt(x):
+                        alts[i] = self.coerce(x, a.ty, e)
+                    else:
+                        self.unify(a.ty, x.ty, e)
+                return self.lift([a] + alts, lambda c: '(%s(%s))' % (neg, ' || '.join(
+                    'decide (%s = %s)' % (c[0], y) for y in c[1:])), BOOL)
+            b = self.expr(right)
+            if not isinstance(prune(b.ty), TV) and self.kind(self.unopt(b), right) == 'str':
+                a = self.unopt(self.expr(e.left))
+                b = self.unopt(b)
+                if self.kind(a, e.left) != 'str':
+                    self.bad(e, '`in` between a %s and a str' % self.kind(a, e.left))
+                return self.lift([a, b], lambda c: '(%sPy.strContains %s %s)' % (neg, c[1], c[0]), BOOL)
+        if op in ('Lt', 'LtE', 'Gt', 'GtE'):
+            a, b = self.unopt(self.expr(e.left)), self.unopt(self.expr(right))
+            ka, kb = self.kind(a, e.left), self.kind(b, right)
+            if ka not in ('int', 'nat') or kb not in ('int', 'nat'):
+                self.bad(e, 'ordering comparison on %s and %s' % (ka, kb))
+            if ka != kb:
+                a, b = self.to_int(a), self.to_int(b)
+            sym = {'Lt': '<', 'LtE': '≤', 'Gt': '>', 'GtE': '≥'}[op]
+            return self.lift([a, b], lambda c: '(decide (%s %s %s))' % (c[0], sym, c[1]), BOOL)
+        return FuncCompiler.e_Compare(self, e)
+
+    def builtin(self, name):
+        return name not in self.names and not module_binds(self.mod, name)
+
+    def e_Call(self, e):
+        f = e.func
+        if isinstance(f, ast.Name) and not e.keywords and self.builtin(f.id):
+            if f.id == 'len' and len(e.args) == 1:
+                a = self.unopt(self.expr(e.args[0]))
+                if self.kind(a, e) not in ('str', 'bytes', 'list', 'dict'):
+                    self.bad(e, 'len() of a %s' % self.kind(a, e))
+                return self.lift([a], lambda c: '(List.length %s)' % c[0], NAT)
+            if f.id == 'int' and len(e.args) == 1:
+                a = self.unopt(self.expr(e.args[0]))
+                k = self.kind(a, e)
+                if k == 'str':
+                    return self.lift([a], lambda c: '(Py.intOfStr %s)' % c[0], INT, result_raises=True)
+                if k in ('int', 'nat'):
+                    return self.to_int(a)
+                self.bad(e, 'int() of a %s' % k)
+            if f.id == 'slice':
+                oi = ('opt', INT)
+                if len(e.args) == 1 and isinstance(e.args[0], ast.Starred):
+                    xs = self.expr(e.args[0].value)
+                    self.unify(xs.ty, ('list', oi), e)
+                    return self.lift([xs], lambda c: '(Py.sliceOfList %s)' % c[0], INTORSLICE, result_raises=True)
+                if 1 <= len(e.args) <= 3 and not any(isinstance(a, ast.Starred) for a in e.args):
+                    args = [self.coerce(self.to_int(self.expr(a)), oi, e) for a in e.args]
+                    if len(args) == 1:
+                        build = lambda c: '(Py.IntOrSlice.slice none %s none)' % c[0]
+                    elif len(args) == 2:
+                        build = lambda c: '(Py.IntOrSlice.slice %s %s none)' % (c[0], c[1])
+                    else:
+                        build = lambda c: '(Py.IntOrSlice.slice %s %s %s)' % (c[0], c[1], c[2])
+                    return self.lift(args, build, INTORSLICE)
+                self.bad(e, 'slice() call form')
+        if isinstance(f, ast.Name) and not e.keywords and f.id not in self.names:
+            if f.id in self.gen.namedtuples and not any(isinstance(a, ast.Starred) for a in e.args):
+                fields = self.gen.namedtuples[f.id]
+                if len(e.args) != len(fields):
+                    self.bad(e, '%s(...) with %d arguments' % (f.id, len(e.args)))
+                args = [self.coerce(self.to_int(self.expr(a)), t, e) for a, t in zip(e.args, fields.values())]
+                names = [lean_ident(k) for k in fields]
+                return self.lift(args, lambda c: '({ %s } : %s)' % (', '.join('%s := %s' % (n, x) for n, x in zip(names, c)), f.id),
+                                 ('named', f.id))
+            if f.id in self.classes and '__init__' in self.classes[f.id].sigs and not any(isinstance(a, ast.Starred) for a in e.args):
+                params, _ = self.classes[f.id].sigs['__init__']
+                if len(e.args) != len(params):
+                    self.bad(e, '%s(...) with %d arguments' % (f.id, len(e.args)))
+                args = [self.coerce(self.to_int(self.expr(a)), t, e) for a, t in zip(e.args, params.values())]
+                return self.lift(args, lambda c: '(%s.__init__ %s)' % (f.id, ' '.join(c)), ('named', f.id))
+        if isinstance(f, ast.Attribute) and f.attr == 'find' and len(e.args) == 1 and not e.keywords and self.self_call(e) is None:
+            recv = self.unopt(self.expr(f.value))
+            arg = self.unopt(self.expr(e.args[0]))
+            if self.kind(recv, e) == 'str' and self.kind(arg, e) == 'str':
+                return self.lift([recv, arg], lambda c: '(Py.strFind %s %s)' % (c[0], c[1]), INT)
+        if self.self_call(e) is not None:
+            self.bad(e, 'call of a method of the object inside an expression (only as a statement, as the whole right-hand '
+                        'side of an assignment, or as the argument of self.<list>.append)')
+        return FuncCompiler.e_Call(self, e)
+
+    # -- exceptions -----------------------------------------------------------------------------
+    def effects(self, e):
+        """the sub-expressions that may raise, in evaluation order, of an expression whose VALUE is not modelled
+        (the message of an exception)"""
+        if (isinstance(e, ast.Call) and isinstance(e.func, ast.Attribute) and e.func.attr == 'format'
+                and isinstance(e.func.value, ast.Constant) and isinstance(e.func.value.value, str)):
+            if e.keywords or any(isinstance(a, ast.Starred) for a in e.args):
+                self.bad(e, 'format() with keyword / starred arguments in an exception message')
+            auto = 0
+            try:
+                parsed = list(string.Formatter().parse(e.func.value.value))
+            except ValueError as err:
+                self.bad(e, 'format string: %s' % err)
+            for _lit, field, spec, conv in parsed:
+                if field is None:
+                    continue
+                if field != '' or spec != '' or conv not in (None, 'r', 's'):
+                    self.bad(e, 'format field {%s!%s:%s} in an exception message' % (field, conv, spec))
+                auto += 1
+            if auto != len(e.args):
+                self.bad(e, 'format(): %d fields, %d arguments' % (auto, len(e.args)))
+            out = []
+            for a in e.args:
+                out += self.effects(a)
+            return out
+        ex = self.expr(e)
+        return [ex] if ex.raises else []
+
+    def raise_stmt(self, s, allow_effects=True):
+        if s.cause is not None or s.exc is None:
+            self.bad(s, 'bare raise / raise from')
+        exc = s.exc
+        effs = []
+        if isinstance(exc, ast.Name):
+            cls = exc.id
+        elif isinstance(exc, ast.Call) and isinstance(exc.func, ast.Name) and not exc.keywords \
+                and not any(isinstance(a, ast.Starred) for a in exc.args):
+            name = exc.func.id
+            if name in self.mod.funcs:
+                # raise f(a, b) with a module-level  def f(p, q): return Cls(<message that cannot raise>)
+                nodes = self.mod.funcs[name]
+                if len(nodes) != 1 or module_binds(self.mod, name) and (name in self.mod.assigns or name in self.mod.classes):
+                    self.bad(s, 'exception factory %s is not bound exactly once' % name)
+                fn = nodes[0]
+                body = [b for b in fn.body if not (isinstance(b, ast.Expr) and isinstance(b.value, ast.Constant))]
+                fa = fn.args
+                if (len(body) != 1 or not isinstance(body[0], ast.Return) or not isinstance(body[0].value, ast.Call)
+                        or not isinstance(body[0].value.func, ast.Name) or body[0].value.keywords
+                        or fa.vararg or fa.kwarg or fa.kwonlyargs or fa.posonlyargs or fn.decorator_list
+                        or len(fa.args) != len(exc.args)):
+                    self.bad(s, 'raise %s(...): %s is not of the form `def %s(p, ..): return Cls(...)`' % (name, name, name))
+                inner = body[0].value
+                cls = inner.func.id
+                args = [self.expr(a) for a in exc.args]
+                effs = [a for a in args if a.raises]
+                saved = dict(self.names)
+                try:
+                    for p, a in zip(fa.args, args):
+                        self.names[p.arg] = ('py2lean_message_argument', a.ty)
+                    inner_effs = []
+                    for a in inner.args:
+                        inner_effs += self.effects(a)
+                finally:
+                    self.names = saved
+                if inner_effs:
+                    self.bad(s, 'the message built by %s may raise' % name)
+            else:
+                cls = name
+                for a in exc.args:
+                    effs += self.effects(a)
+        else:
+            self.bad(s, 'raise of something that is not ClassName(...) / factory(...)')
+        if cls in self.mod.funcs or cls in self.mod.assigns or cls in self.names:
+            self.bad(s, 'raise of %s, which is not a class name' % cls)
+        self.may_raise = True
+        err = '(Except.error (Py.Exc.raised "%s"))' % cls
+        if not effs:
+            return err
+        if not allow_effects:
+            self.bad(s, 'the arguments of this raise may raise themselves')
+        # the arguments are evaluated first, left to right; one of them raising wins
+        return '(do ' + '; '.join(['let _ ← %s' % x.code for x in effs] + [err]) + ')'
+
+    # -- statements -------------------------------------------------------------------------------
+    def self_call(self, e):
+        """(attribute holding the receiver or None for self, ClassInfo, method name, argument nodes) for
+        `self.m(..)` / `self.a.m(..)` with m a translated method; None otherwise"""
+        if not (isinstance(e, ast.Call) and isinstance(e.func, ast.Attribute)):
+            return None
+        p = self_path(e.func)
+        if not p:
+            return None
+        if len(p) == 1 and p[0] in self.cls.methods:
+            return (None, self.cls, p[0], e)
+        if len(p) == 2 and p[0] in self.cls.attrs:
+            t = prune(self.cls.attrs[p[0]])
+            k = self.classes.get(t[1]) if t[0] == 'named' else None
+            if k is not None and p[1] in k.methods:
+                return (p[0], k, p[1], e)
+        return None
+
+    def set_attr(self, path, ex, node):
+        ty = self.attr_type(path, node)
+        ex = self.coerce(self.to_int(ex) if prune(ty) != NAT else ex, ty, node)
+        names = [lean_ident(a) for a in path]
+
+        def build(val):
+            inner = val
+            for i in range(len(names) - 1, -1, -1):
+                holder = 'v.self' + ''.join('.' + n for n in names[:i])
+                inner = '{ %s with %s := %s }' % (holder, names[i], inner)
+            return '{ v with self := %s }' % inner
+        if ex.raises:
+            t = self.fresh()
+            return '(do let %s ← %s; pure %s)' % (t, ex.code, build(t)), True
+        return build(ex.code), False
+
+    def assign_target(self, tgt, ex, node):
+        if isinstance(tgt, ast.Name):
+            return self.set_local(tgt.id, ex, node)
+        p = self_path(tgt)
+        if p:
+            return self.set_attr(p, ex, node)
+        self.bad(node, 'assignment target is not in the table')
+
+    def call_stmt(self, call, s, assign_to=None, append_to=None):
+        recv, k, mname, e = call
+        if e.keywords or any(isinstance(a, ast.Starred) for a in e.args):
+            self.bad(s, 'method call with keyword / starred arguments')
+        sig = k.sigs.get(mname)
+        if sig is None:
+            self.bad(s, 'call of %s.%s before it is translated (recursive methods are not in the table)' % (k.name, mname))
+        params, rty = sig
+        if len(e.args) != len(params):
+            self.bad(s, 'call of %s.%s with %d arguments' % (k.name, mname, len(e.args)))
+        args = [self.coerce(self.to_int(self.expr(a)), t, s) for a, t in zip(e.args, params.values())]
+        lines, codes = ['(do'], []
+        for a in args:
+            if a.raises:
+                u = self.fresh()
+                lines.append('  let %s ← %s' % (u, a.code))
+                codes.append(u)
+            else:
+                codes.append(a.code)
+        t = self.fresh()
+        selfcode = 'v.self' if recv is None else 'v.self.%s' % lean_ident(recv)
+        lines.append('  let %s ← (%s.%s %s%s)' % (t, k.name, lean_ident(mname), selfcode, ''.join(' ' + c for c in codes)))
+        if recv is None:
+            lines.append('  let v : Locals := { v with self := %s.1 }' % t)
+        else:
+            lines.append('  let v : Locals := { v with self := { v.self with %s := %s.1 } }' % (lean_ident(recv), t))
+        result = Ex('%s.2' % t, rty)
+        if assign_to is not None or append_to is not None:
+            if prune(rty) == UNIT:
+                self.bad(s, 'the value of %s.%s, which returns nothing, is used' % (k.name, mname))
+        if assign_to is not None:
+            text, r = self.assign_target(assign_to, result, s)
+        elif append_to is not None:
+            # Python evaluates the list object before the call: the same list afterwards only if the callee leaves
+            # that attribute alone
+            if recv is not None or append_to[0] in k.writes[mname]:
+                self.bad(s, 'self.%s.append(self.%s()) where %s may change self.%s' % (append_to[0], mname, mname, append_to[0]))
+            lt = self.attr_type(append_to, s)
+            tv = TV()
+            self.unify(lt, ('list', tv), s)
+            item = self.coerce(result, tv, s)
+            cur = 'v.self.' + '.'.join(lean_ident(a) for a in append_to)
+            text, r = self.set_attr(append_to, self.lift([item], lambda c: '(%s ++ [%s])' % (cur, c[0]), lt), s)
+        else:
+            text, r = 'v', False
+        lines.append('  %s)' % (indent_rest(text, 2) if r else 'pure ' + indent_rest(text, 4)))
+        self.may_raise = True
+        return '\n'.join(lines), True
+
+    def tuple_assign(self, s):
+        tgt, val = s.targets[0], s.value
+        if not isinstance(val, ast.Tuple) or len(val.elts) != len(tgt.elts) or any(isinstance(x, ast.Starred) for x in tgt.elts + val.elts):
+            self.bad(s, 'tuple assignment other than `a, b = x, y`')
+        # the right-hand sides are evaluated left to right first, then the targets are assigned left to right
+        vals = [self.to_int(self.expr(x)) for x in val.elts]
+        lines, temps, any_raise = [], [], False
+        for x in vals:
+            u = self.fresh()
+            lines.append('let %s %s %s' % (u, '←' if x.raises else ':=', x.code))
+            any_raise = any_raise or x.raises
+            temps.append(Ex(u, x.ty))
+        items = [self.assign_target(t, u, s) for t, u in zip(tgt.elts, temps)]
+        any_raise = any_raise or any(r for _, r in items)
+        if any_raise:
+            out = ['(do'] + ['  ' + l for l in lines]
+            for text, r in items[:-1]:
+                out.append('  let v : Locals %s %s' % ('←' if r else ':=', indent_rest(text, 4)))
+            text, r = items[-1]
+            out.append('  %s)' % (indent_rest(text, 2) if r else 'pure ' + indent_rest(text, 4)))
+            return '\n'.join(out), True
+        out = ['(' + lines[0]] + [' ' + l for l in lines[1:]]
+        for text, _ in items:
+            out.append(' let v : Locals := %s' % indent_rest(text, 5))
+        out.append(' v)')
+        return '\n'.join(out), False
+
+    def assert_stmt(self, s):
+        if s.msg is not None:
+            self.bad(s, 'assert with a message')
+        fail = '(Except.error (Py.Exc.raised "AssertionError"))'
+        t = s.test
+        self.may_raise = True
+        if (isinstance(t, ast.Call) and isinstance(t.func, ast.Name) and t.func.id == 'isinstance' and self.builtin('isinstance')
+                and len(t.args) == 2 and not t.keywords and isinstance(t.args[1], ast.Name) and t.args[1].id == 'int'
+                and self.builtin('int')):
+            x = self.expr(t.args[0])
+            tx = prune(x.ty)
+            if not isinstance(tx, TV) and tx[0] == 'opt' and prune(tx[1]) in (INT, NAT):
+                u = self.fresh()
+                if x.raises:
+                    return '(do let %s ← %s; if (Option.isSome %s) then pure v else %s)' % (u, x.code, u, fail), True
+                return '(if (Option.isSome %s) then pure v else %s)' % (x.code, fail), True
+            self.bad(s, 'assert isinstance(x, int) on a value that is not `int or None`')
+        c = self.as_bool(self.expr(t), t)
+        if c.raises:
+            u = self.fresh()
+            return '(do let %s ← %s; if %s then pure v else %s)' % (u, c.code, u, fail), True
+        return '(if %s then pure v else %s)' % (c.code, fail), True
+
+    def stmt(self, s):
+        if isinstance(s, ast.Assign) and len(s.targets) == 1:
+            tgt = s.targets[0]
+            call = self.self_call(s.value)
+            if call is not None:
+                return self.call_stmt(call, s, assign_to=tgt)
+            if isinstance(tgt, ast.Attribute):
+                p = self_path(tgt)
+                if not p:
+                    self.bad(s, 'attribute assignment other than self.<attr> / self.<attr>.<attr>')
+                return self.set_attr(p, self.expr(s.value), s)
+            if isinstance(tgt, ast.Tuple):
+                return self.tuple_assign(s)
+        if isinstance(s, ast.AugAssign) and isinstance(s.target, ast.Attribute):
+            p = self_path(s.target)
+            if not p:
+                self.bad(s, 'augmented assignment to an attribute other than self.<attr>')
+            left = ast.Attribute(value=s.target.value, attr=s.target.attr, ctx=ast.Load())
+            fake = ast.BinOp(left=left, op=s.op, right=s.value)
+            ast.copy_location(fake, s)
+            ast.copy_location(left, s)
+            return self.set_attr(p, self.expr(fake), s)
+        if isinstance(s, ast.Expr) and isinstance(s.value, ast.Call):
+            c = s.value
+            call = self.self_call(c)
+            if call is not None:
+                return self.call_stmt(call, s)
+            if isinstance(c.func, ast.Attribute) and c.func.attr == 'append' and len(c.args) == 1 and not c.keywords:
+                p = self_path(c.func.value)
+                if p:
+                    inner = self.self_call(c.args[0])
+                    if inner is not None:
+                        return self.call_stmt(inner, s, append_to=p)
+                    lt = self.attr_type(p, s)
+                    tv = TV()
+                    self.unify(lt, ('list', tv), s)
+                    item = self.coerce(self.to_int(self.expr(c.args[0])), tv, s)
+                    cur = 'v.self.' + '.'.join(lean_ident(a) for a in p)
+                    return self.set_attr(p, self.lift([item], lambda k: '(%s ++ [%s])' % (cur, k[0]), lt), s)
+        if isinstance(s, ast.Assert):
+            return self.assert_stmt(s)
+        if isinstance(s, ast.Try):
+            self.bad(s, '`try` that is not the last statement of the method')
+        return FuncCompiler.stmt(self, s)
+
+    def definite_other(self, s, assigned):
+        if isinstance(s, ast.Assert):
+            self.check_reads(s.test, assigned)
+            return assigned
+        if isinstance(s, ast.Try):
+            self.definite(s.body, assigned)
+            for h in s.handlers:
+                self.definite(h.body, assigned)
+            return assigned
+        return FuncCompiler.definite_other(self, s, assigned)
+
+    # -- the method -----------------------------------------------------------------------------
+    def try_tail(self, s):
+        if s.orelse or s.finalbody or len(s.handlers) != 1:
+            self.bad(s, 'try with else / finally / several handlers')
+        h = s.handlers[0]
+        if h.name is not None or not isinstance(h.type, ast.Name) or h.type.id not in BUILTIN_EXC or not self.builtin(h.type.id):
+            self.bad(s, 'except clause other than `except E:` with E one of %s' % ', '.join(sorted(BUILTIN_EXC)))
+        for b in s.body:
+            for n in ast.walk(b):
+                if isinstance(n, (ast.Raise, ast.Assert, ast.While, ast.For, ast.Try)):
+                    self.bad(n, '%s inside a try body' % type(n).__name__.lower())
+                if isinstance(n, ast.Call):
+                    f = n.func
+                    if self.self_call(n) is not None or (isinstance(f, ast.Name) and not self.builtin(f.id)):
+                        self.bad(n, 'call of translated code inside a try body (only primitives may raise there)')
+        body, br = self.tail(s.body)
+        if len(h.body) != 1 or not isinstance(h.body[0], ast.Raise):
+            self.bad(s, 'except handler that is not a single raise')
+        handler = self.raise_stmt(h.body[0], allow_effects=False)
+        if not br:
+            return body, False
+        return '(Py.tryExcept %s\n  (fun e => decide (e = Py.Exc.%s))\n  %s)' % (indent_rest(body, 2), BUILTIN_EXC[h.type.id], handler), True
+
+    def tail(self, stmts):
+        """the statements ending the method: text of type Self × R / Except Py.Exc (Self × R)"""
+        last = stmts[-1] if stmts else None
+        head_stmts = stmts[:-1]
+        if isinstance(last, ast.Return):
+            if last.value is None:
+                r = Ex('()', UNIT)
+            else:
+                if self.self_call(last.value) is not None:
+                    self.bad(last, 'return of a method call (assign it to a local first)')
+                r = self.to_int(self.expr(last.value))
+            r = self.coerce(r, self.ret_type, last)
+            fin = self.lift([r], lambda c: '(v.self, %s)' % c[0], self.ret_type)
+            text, rr = fin.code, fin.raises
+        elif isinstance(last, ast.If) and last.orelse:
+            c = self.as_bool(self.expr(last.test), last.test)
+            a, ar = self.tail(last.body)
+            b, br = self.tail(last.orelse)
+            if ar or br:
+                if not ar:
+                    a = '(pure %s)' % a
+                if not br:
+                    b = '(pure %s)' % b
+            body = lambda k: '(if %s then\n    %s\n  else\n    %s)' % (k, indent_rest(a, 4), indent_rest(b, 4))
+            if c.raises:
+                t = self.fresh()
+                text = '(do\n  let %s ← %s\n  %s)' % (t, c.code, indent_rest(body(t) if (ar or br) else 'pure ' + body(t), 2))
+                rr = True
+            else:
+                text, rr = body(c.code), (ar or br)
+        elif isinstance(last, ast.Raise):
+            text, rr = self.raise_stmt(last), True
+        elif isinstance(last, ast.Try):
+            text, rr = self.try_tail(last)
+        else:
+            # the method ends without `return`: it returns None, which no caller may use
+            head_stmts = stmts
+            self.unify(self.ret_type, UNIT, self.node)
+            text, rr = '(v.self, ())', False
+        head, hr = self.block(head_stmts) if head_stmts else ('v', False)
+        if head == 'v' and not hr:
+            return text, rr
+        if not hr:
+            return '(let v : Locals := %s\n %s)' % (indent_rest(head, 4), indent_rest(text, 1)), rr
+        return '(do\n  let v : Locals ← %s\n  %s)' % (indent_rest(head, 4), indent_rest(text if rr else 'pure ' + text, 2)), True
+
+    def render(self, doc):
+        local_names, text, raises = self.compile()
+        ns = self.lean_name
+        selfty = '%s.Self' % self.cls.name
+        fields = [('self', selfty, 'self')]
+        for p, t in self.params.items():
+            fields.append((lean_ident(p), lean_type(t), lean_ident(p)))
+        for n in local_names:
+            t = self.local_types[n]
+            if prune(t) == INT and n in self.nat_locals:
+                t = NAT
+            fields.append((lean_ident(n), lean_type(t), default_value(t)))
+        out = ['namespace %s' % ns,
+               '/-- the state of `%s.%s`: the object, the parameters, the local variables -/' % (self.cls.name, self.node.name),
+               'structure Locals where']
+        for f, t, _ in fields:
+            out.append('  %s : %s' % (f, t))
+        out.append('')
+        for a in self.aux:
+            out.append(a)
+            out.append('')
+        out.append('end %s' % ns)
+        out.append('')
+        out.append('open %s in' % ns)
+        out.append(doc)
+        params_sig = ' (self : %s)' % selfty + ''.join(' (%s : %s)' % (lean_ident(p), lean_type(t)) for p, t in self.params.items())
+        init = ', '.join('%s := %s' % (f, d) for f, _, d in fields)
+        if not raises:
+            text = '(pure %s)' % text
+        out.append('def %s%s : Except Py.Exc (%s × %s) :=\n  let v : Locals := { %s }\n  %s' % (
+            ns, params_sig, selfty, lean_type(self.ret_type, False), init, indent_rest(text, 2)))
+        return '\n'.join(out), True
+
+
+def render_init(gen, info, node, params):
+    """`__init__`: every statement is `self.<attr> = <expression that does not mention self>`, and every declared
+    attribute is assigned exactly once; rendered as a structure literal"""
+    mod = gen.mod
+    a = node.args
+    if a.vararg or a.kwarg or a.kwonlyargs or a.posonlyargs or node.decorator_list or [x.arg for x in a.args] != ['self'] + list(params):
+        raise Py2LeanUnsupported(mod.relpath, node, '__init__ signature differs from the translator specification')
+    ec = ExprCompiler(mod, gen)
+    mc = MethodCompiler(mod, gen, node, '%s.__init__' % info.name, params, info, gen.stateful, {})
+    mc.names = {p: (lean_ident(p), t) for p, t in params.items()}
+    vals = {}
+    body = [b for b in node.body if not (isinstance(b, ast.Expr) and isinstance(b.value, ast.Constant))]
+    for s in body:
+        ok = isinstance(s, ast.Assign) and len(s.targets) == 1 and self_path(s.targets[0]) is not None and len(self_path(s.targets[0])) == 1
+        if not ok or any(isinstance(n, ast.Name) and n.id == 'self' for n in ast.walk(s.value)):
+            raise Py2LeanUnsupported(mod.relpath, s, '__init__ statement other than `self.<attr> = <expression without self>`')
+        attr = s.targets[0].attr
+        if attr in vals or attr not in info.attrs:
+            raise Py2LeanUnsupported(mod.relpath, s, '__init__ assigns self.%s twice, or it has no declared type' % attr)
+        ex = mc.coerce(mc.to_int(mc.expr(s.value)), info.attrs[attr], s)
+        if ex.raises:
+            raise Py2LeanUnsupported(mod.relpath, s, '__init__ value that may raise')
+        vals[attr] = ex.code
+    missing = [k for k in info.attrs if k not in vals]
+    if missing:
+        raise Py2LeanUnsupported(mod.relpath, node, '__init__ does not assign the declared attribute(s) %s' % ', '.join(missing))
+    lo, hi, _ = mod.src(node)
+    sig = ''.join(' (%s : %s)' % (lean_ident(p), lean_type(t)) for p, t in params.items())
+    text = '/-- %s:%d-%d  `%s.__init__` -/\ndef %s.__init__%s : %s.Self :=\n  { %s }' % (
+        mod.relpath, lo, hi, info.name, info.name, sig, info.name,
+        ', '.join('%s := %s' % (lean_ident(k), vals[k]) for k in info.attrs))
+    return text, (lo, hi)
+
+
+def render_named(gen, spec, func_texts):
+    """namedtuples and stateful classes of one SPEC entry, in the order given"""
+    mod = gen.mod
+    gen.namedtuples = {}
+    gen.stateful = {}
+    for name, ns in spec.get('namedtuples', {}).items():
+        # class Name(_Base): <docstring>   with   _Base = namedtuple('..', [field names])   at module level
+        cnodes = mod.classes.get(name, [])
+        if len(cnodes) != 1 or name in mod.assigns or name in mod.funcs:
+            raise Py2LeanUnsupported(mod.relpath, 0, 'class %s not found exactly once' % name)
+        cnode = cnodes[0]
+        body = [b for b in cnode.body if not (isinstance(b, ast.Expr) and isinstance(b.value, ast.Constant)) and not isinstance(b, ast.Pass)]
+        if body or len(cnode.bases) != 1 or not isinstance(cnode.bases[0], ast.Name) or cnode.keywords or cnode.decorator_list:
+            raise Py2LeanUnsupported(mod.relpath, cnode, 'class %s is not a bare subclass of a namedtuple' % name)
+        bnode = mod.const_node(cnode.bases[0].id, cnode)
+        v = bnode.value
+        ok = (isinstance(v, ast.Call) and isinstance(v.func, ast.Name) and v.func.id == 'namedtuple' and len(v.args) == 2
+              and not v.keywords and isinstance(v.args[1], ast.List)
+              and all(isinstance(x, ast.Constant) and isinstance(x.value, str) for x in v.args[1].elts)
+              and module_imports(mod, 'collections', 'namedtuple'))
+        if not ok or [x.value for x in v.args[1].elts] != list(ns['fields']):
+            raise Py2LeanUnsupported(mod.relpath, bnode, 'the fields of namedtuple %s differ from the translator specification' % name)
+        NAMED_KIND[name] = 'namedtuple'
+        fields = {k: parse_type(t) for k, t in ns['fields'].items()}
+        gen.namedtuples[name] = fields
+        lo, hi, _ = mod.src(cnode)
+        st = ['/-- %s:%d  namedtuple `%s` -/' % (mod.relpath, bnode.lineno, name), 'structure %s where' % name]
+        for k, t in fields.items():
+            st.append('  %s : %s' % (lean_ident(k), lean_type(t)))
+        st.append('  deriving DecidableEq, Repr, Inhabited')
+        func_texts.append('\n'.join(st))
+        gen.items.append({'kind': 'namedtuple', 'name': name, 'lines': [bnode.lineno, hi]})
+    for cname, cs in spec.get('classes', {}).items():
+        if not cs.get('stateful'):
+            continue
+        cnodes = mod.classes.get(cname, [])
+        if len(cnodes) != 1:
+            raise Py2LeanUnsupported(mod.relpath, 0, 'class %s not found exactly once' % cname)
+        cnode = cnodes[0]
+        NAMED_KIND[cname] = 'class'
+        info = ClassInfo(cname, cnode, {k: parse_type(t) for k, t in cs['attrs'].items()}, cs)
+        defs = {}
+        for n in cnode.body:
+            if isinstance(n, ast.FunctionDef):
+                defs.setdefault(n.name, []).append(n)
+        for mname in cs['methods']:
+            if len(defs.get(mname, [])) != 1:
+                raise Py2LeanUnsupported(mod.relpath, cnode, 'method %s.%s not found exactly once' % (cname, mname))
+            info.methods[mname] = defs[mname][0]
+        # which attributes a method may change (calls of other methods of the object included), call order
+        direct = {m: direct_writes_and_calls(n) for m, n in info.methods.items()}
+        for m, (w, c) in direct.items():
+            for callee in c:
+                if callee in defs and callee not in info.methods:
+                    raise Py2LeanUnsupported(mod.relpath, info.methods[m], 'call of self.%s, which is not in the translator specification' % callee)
+            info.calls[m] = {x for x in c if x in info.methods}
+        order, state = [], {}
+
+        def visit(m):
+            if state.get(m) == 1:
+                raise Py2LeanUnsupported(mod.relpath, info.methods[m], 'recursive methods (%s)' % m)
+            if state.get(m) == 2:
+                return
+            state[m] = 1
+            for x in sorted(info.calls[m], key=lambda y: list(info.methods).index(y)):
+                visit(x)
+            state[m] = 2
+            order.append(m)
+        for m in info.methods:
+            visit(m)
+        for m in order:
+            info.writes[m] = set(direct[m][0])
+            for x in info.calls[m]:
+                info.writes[m] |= info.writes[x]
+        st = ['/-- the attributes of a `%s` instance (modelled by value; an attribute that holds an object of a translated' % cname,
+              '    class is a nested record) -/', 'structure %s.Self where' % cname]
+        for k in cs['attrs']:
+            st.append('  %s : %s' % (lean_ident(k), lean_type(info.attrs[k])))
+        st.append('  deriving DecidableEq, Repr, Inhabited')
+        func_texts.append('\n'.join(st))
+        gen.stateful[cname] = info
+        for m in order:
+            node = info.methods[m]
+            ms = cs['methods'][m]
+            params = {p: parse_type(t) for p, t in ms.get('params', {}).items()}
+            lo, hi, _ = mod.src(node)
+            if m == '__init__':
+                text, _ = render_init(gen, info, node, params)
+                info.sigs[m] = (params, ('named', cname))
+                func_texts.append(text)
+                gen.items.append({'kind': 'method', 'name': '%s.%s' % (cname, m), 'lines': [lo, hi], 'may_raise': False})
+                continue
+            mc = MethodCompiler(mod, gen, node, '%s.%s' % (cname, lean_ident(m)), params, info, gen.stateful,
+                                {k: parse_type(t) for k, t in ms.get('locals', {}).items()},
+                                returns=parse_type(ms['returns']) if ms.get('returns') else None)
+            doc = '/-- %s:%d-%d  `%s.%s` -/' % (mod.relpath, lo, hi, cname, m)
+            text, raises = mc.render(doc)
+            info.sigs[m] = (params, prune(mc.ret_type))
+            func_texts.append(text)
+            gen.items.append({'kind': 'method', 'name': '%s.%s' % (cname, m), 'lines': [lo, hi], 'may_raise': True})
+
+
+# =============================================================================================
 class ModuleGen(object):
     """the generated Lean file of one Python module"""
 
@@ -1382,7 +2217,11 @@ class ModuleGen(object):
             text, raises = fc.render(doc)
             func_texts.append(text)
             self.items.append({'kind': 'function', 'name': fname, 'lines': [a, b], 'may_raise': raises})
+        NAMED_KIND.clear()
+        render_named(self, spec, func_texts)      # namedtuples and stateful classes (block "stateful classes" below)
         for cname, cs in spec.get('classes', {}).items():
+            if cs.get('stateful'):
+                continue
             cnodes = self.mod.classes.get(cname, [])
             if len(cnodes) != 1:
                 raise Py2LeanUnsupported(self.mod.relpath, 0, 'class %s not found exactly once' % cname)
